@@ -11,22 +11,28 @@ import YaegiVerif.Spec.GoSelector
 namespace YaegiVerif.MethodClass
 open YaegiVerif.Method YaegiVerif.MethodRun YaegiVerif.Spec.Selector
 
-/-- the first element is strictly smaller than all others -/
-def headStrictMin : List Nat → Bool
-  | [] => true
-  | d :: rest => rest.all (fun e => d < e)
+/-- number of occurrences at depth `d` -/
+def countAt (d : Nat) (ds : List Nat) : Nat := (ds.filter (fun e => e == d)).length
 
-/-- the first method found depth first is the only one at the shallowest depth -/
-def shallowFirstM (D : Decls) (t : Nat) (x : String) : Bool := headStrictMin ((mocc D t x).map MHit.depth)
-def shallowFirstF (D : Decls) (t : Nat) (x : String) : Bool := headStrictMin ((focc D t x).map FHit.depth)
-/-- `lookupField` finds what a search through embedded fields only finds -/
-def fieldLookupExact (F : Facts) (D : Decls) (t : Nat) (x : String) : Bool := lookupFieldY F D t x == (focc D t x).head?
-/-- the depths of the first field and the first method are not in the two positions where the
-    comparison `d < len(ti)` / `d == len(ti)` of the selector case is off by one -/
-def depthsCompat (D : Decls) (t : Nat) (x : String) : Bool :=
-  match (focc D t x).head?, (mocc D t x).head? with
-  | some f, some m => m.depth < f.depth || m.depth > f.depth + 1
-  | _, _ => true
+/-- the first of the elements with the smallest key -/
+def firstMinBy (key : α → Nat) : List α → Option α
+  | [] => none
+  | a :: l =>
+    match firstMinBy key l with
+    | none => some a
+    | some b => if key b < key a then some b else some a
+
+/-- **the one way in which the selector case still differs from the Go rule** (finding F05-17):
+    several *fields* named `x` at the shallowest field depth and no method at that depth or above —
+    Go reports an ambiguous selector, `lookupField` takes the first of them -/
+def fieldTie (D : Decls) (t : Nat) (x : String) : Bool :=
+  match firstMinBy (fun (h : FHit) => h.path.length) (focc D t x) with
+  | none => false
+  | some fh =>
+    decide (countAt fh.depth ((focc D t x).map FHit.depth) > 1) &&
+      (match firstMinBy (fun (h : MHit) => h.path.length) (mocc D t x) with
+       | none => true
+       | some mh => decide (fh.depth < mh.depth))
 
 /-- no struct-typed field that is not embedded -/
 def plainFree (D : Decls) : Bool :=
@@ -35,15 +41,10 @@ def plainFree (D : Decls) : Bool :=
     | .iface _ _ _ => true)
 
 /-- the domain of `select_eq_spec_partial` -/
-def selDom (F : Facts) (D : Decls) (t : Nat) (x : String) : Bool :=
-  shallowFirstM D t x && shallowFirstF D t x && fieldLookupExact F D t x && depthsCompat D t x
+def selDom (D : Decls) (t : Nat) (x : String) : Bool := !fieldTie D t x
 
-def selClass (F : Facts) (D : Decls) (t : Nat) (x : String) : Option String :=
-  if !(fieldLookupExact F D t x && shallowFirstF D t x) then some "field-lookup-order"
-  else if !depthsCompat D t x then some "field-method-depth"
-  else if !shallowFirstM D t x then
-    (if select D t x == .ambiguous then some "ambiguous-selector-accepted" else some "dfs-not-shallowest")
-  else none
+def selClass (_F : Facts) (D : Decls) (t : Nat) (x : String) : Option String :=
+  if fieldTie D t x then some "ambiguous-field-accepted" else none
 
 /-! ### domains of the type-switch theorems -/
 
@@ -91,10 +92,10 @@ def orElse (a : Option String) (b : Unit → Option String) : Option String :=
 def wrappedY (D : Decls) (ity : TyRef) (d : DynT) : Bool :=
   isTyped ity || (methsOf D d.t).any (fun m => !d.ptr || m.ptr)
 
-def dispatchClass (D : Decls) (d : DynT) (m : String) : Option String :=
+def dispatchClass (F : Facts) (D : Decls) (d : DynT) (m : String) : Option String :=
   match select D d.t m with
-  | .method h => if lookupMethodY D d.t m == some h then none else some "dfs-not-shallowest"
-  | _ => if (lookupMethodY D d.t m).isSome then some "implements-names-only" else none
+  | .method h => if lookupMethodY F D d.t m == some h then none else some "dynamic-dispatch-lookup"
+  | _ => if (lookupMethodY F D d.t m).isSome then some "implements-names-only" else none
 
 /-- class of one statement and the updated knowledge -/
 def classStmt (F : Facts) (D : Decls) (e : CEnv) : Stmt → Option String × CEnv
@@ -108,9 +109,7 @@ def classStmt (F : Facts) (D : Decls) (e : CEnv) : Stmt → Option String × CEn
   | .dump _ => (none, e)
   | .call (.ifc i) m =>
     (match clook e i with
-     | .ifc ity (some d) _ stale =>
-       (orElse (if stale && !d.ptr && wrappedY D ity d then some "interface-holds-variable" else none)
-          (fun _ => dispatchClass D d m), e)
+     | .ifc _ (some d) _ _ => (dispatchClass F D d m, e)
      | _ => (none, e))
   | .call r m =>
     (match operand e r with
@@ -129,10 +128,7 @@ def classStmt (F : Facts) (D : Decls) (e : CEnv) : Stmt → Option String × CEn
           | .method h => if isTmp && !recvOK D ⟨t, false⟩ h then some "pointer-method-on-value" else none
           | _ => none), (x, .fn v vr false) :: e)
      | none => (none, e))
-  | .callf x =>
-    (match clook e x with
-     | .fn _ true true => (some "method-value-late-binding", e)
-     | _ => (none, e))
+  | .callf _ => (none, e)
   | .mexpr t isPtr m _ =>
     (orElse (selClass F D t m) (fun _ =>
        match select D t m with
@@ -154,30 +150,32 @@ def classStmt (F : Facts) (D : Decls) (e : CEnv) : Stmt → Option String × CEn
        (if assignLegal .yaegi F D d ity != assignLegal .go F D d ity then some "implements-names-only" else none,
         (x, .ifc ity (some d) v false) :: e)
      | none => (none, (x, .ifc ity none "" false) :: e))
-  | .assert x y ty two m =>
+  | .assert x y ty _ m =>
     (match clook e y with
      | .ifc src dyn v stale =>
        let toIface := tyIsIface D ty
        let c1 : Option String :=
-         if isTyped src then
-           (if toIface then
-              (match dyn with
-               | none => some "assert-nil-to-interface"
-               | some d =>
-                 let gy := matchIfaceY D ⟨d.t, d.ptr, [], true⟩ ty
-                 let gg := matchG D (some d) ty
-                 if gy != gg then some "assert-interface-names-only"
-                 else if !gg && !two && (methodsY D d.t).length ≥ (ifaceNamesY D ty).length then some "assert-single-result-no-panic"
-                 else none)
-            else if assertLegalY D src ty != assertLegal D (tyMethods D src) ty then some "assert-impossible-check"
-            else none)
-         else (if toIface && dyn.isSome then some "assert-from-empty-interface" else none)
+         if toIface then
+           -- the interpreter: the value must be wrapped in a valueInterface (a pointer, or a struct
+           -- whose type has no method of its own, assigned to interface{} is not: F06) and the names
+           -- and signature strings of methods() of its type must cover the interface (F05-8)
+           (match dyn with
+            | none => none
+            | some d =>
+              let wr := wrappedY D src d
+              let gy := wr && matchIfaceY D ⟨d.t, d.ptr, [], true⟩ ty
+              let gg := matchG D (some d) ty
+              if gy == gg then none
+              else if !wr then some "assert-from-empty-interface"
+              else some "assert-interface-names-only")
+         else if isTyped src && assertLegalY F D src ty != assertLegal D (tyMethods D src) ty then some "assert-impossible-check"
+         else none
        let follow : Unit → Option String := fun _ =>
          if m == "" then none else
          match ty with
          | .ptr t => selClass F D t m
-         | .named t => if isIfaceT D t then (match dyn with | some d => dispatchClass D d m | none => none) else selClass F D t m
-         | _ => (match dyn with | some d => dispatchClass D d m | none => none)
+         | .named t => if isIfaceT D t then (match dyn with | some d => dispatchClass F D d m | none => none) else selClass F D t m
+         | _ => (match dyn with | some d => dispatchClass F D d m | none => none)
        let info : Info := if toIface then .ifc ty dyn v stale else
          (match ty with | .ptr t => .ptr t v | .named t => .strct t | _ => .other)
        (orElse c1 follow, (x, info) :: e)
